@@ -115,6 +115,12 @@ static int child_done_with(int s)
 static void after_read(int s, int size, int r, const uint8_t *buf, int api)
 {
   const char *sn = s == 1 ? "stdout" : "stderr";
+  if (vk_cfg.passthru) {
+    /* free run: the helper's bookkeeping arrives only at the end; just count (the observation log is what gets compared) */
+    if (r > 0) got[s] += (uint32_t) r;
+    if (r == REPROC_EPIPE) eof_seen[s] = 1;
+    return;
+  }
   if (r > 0) {
     if (r > size) { vk_violation("C02", "read-count", key, "read on %s returned %d for a buffer of %d", sn, r, size); return; }
     for (int i = 0; i < r; i++) {
@@ -291,6 +297,8 @@ static void c02_body(const struct c02cfg *c, int sched_bound)
   snprintf(key, sizeof key, "h_c02|stderr=%s|loop=%s", em_names[c->em], pv_names[c->pv]);
   hx_begin();
   vk_set_hang_hook(c02_hang);
+  /* comparable with a free run: small payloads (one kernel write each) and loops whose results do not depend on how fast the child is */
+  S->free_run_ok = c->size <= 7 && c->insize <= 7 && c->pv != PV_NONBLOCK && c->pv != PV_NB_READ_FIRST && c->pv != PV_SEQ_EINTR;
   memset(got, 0, sizeof got);
   memset(eof_seen, 0, sizeof eof_seen);
   memset(parent_closed, 0, sizeof parent_closed);
@@ -733,5 +741,5 @@ static void c17_run(int tier, long cfg)
   }
 }
 
-const struct hx_harness h_c02 = { "C02", "h_c02", c02_n, c02_run, c02_clauses, NULL };
+const struct hx_harness h_c02 = { "C02", "h_c02", c02_n, c02_run, c02_clauses, NULL, 0, { 0, 0 }, 0, 3 };
 const struct hx_harness h_c17 = { "C17", "h_c17", c17_n, c17_run, c17_clauses, NULL };
